@@ -74,7 +74,7 @@ Definition good_a (o : option prm3) (oa : option acont) (x : xcont) (fwd : bool)
 
 Definition honest (d : disk fkey xcont) : Prop :=
   forall di k c, In (di, k, c) d ->
-    match c with FGood x => x = ideal (fst k) (snd k) | FBad _ => True | FShape => False end.
+    match c with FGood x => x = ideal (fst k) (snd k) | FBad _ => True | FShape => True end.
 
 Definition Inv (s : st) : Prop :=
   match bs s, bs_prm s with
@@ -90,7 +90,7 @@ Lemma honest_filter : forall d f, honest d -> honest (filter f d).
 Proof. unfold honest. intros d f H di k c Hin. apply filter_In in Hin. destruct Hin. eapply H; eauto. Qed.
 
 Lemma honest_put : forall d di k c, honest d ->
-  match c with FGood x => x = ideal (fst k) (snd k) | FBad _ => True | FShape => False end ->
+  match c with FGood x => x = ideal (fst k) (snd k) | FBad _ => True | FShape => True end ->
   honest (put_file fkey_eqb di k c d).
 Proof.
   unfold honest, put_file, remove_file. intros d di k c H Hc di' k' c' [Hin|Hin].
@@ -214,7 +214,7 @@ Proof.
         split; [|discriminate]. intros _. exists (ideal n sig). cbn. repeat split; auto. }
       destruct (pick n sig di (dk s)) as [[k c]|] eqn:Epk; [|apply Hreg; auto].
       destruct (pick_spec _ _ _ _ _ _ Epk) as (Hk1 & Hk2 & Hk3). pose proof (Hh _ _ _ Hk3) as Hc.
-      destruct c as [x|pe|]; [|destruct pe|contradiction].
+      destruct c as [x|pe|]; [|destruct pe|apply Hreg; auto].
       * inversion He; subst s1 oe. clear He. subst x.
         assert (Hgx : good_x (crop n (ideal (fst k) (snd k))) n (snd k)).
         { unfold crop, good_x. cbn [x_n ideal]. destruct (n <? fst k) eqn:E4; cbn; repeat split; auto.
@@ -326,7 +326,7 @@ Proof.
   - inversion Hs; subst. split; [|discriminate]. destruct HI as [HI0 Hh].
     unfold Inv, with_dk. cbn [bs bs_prm trf_prm tri_prm trf tri dk]. split; auto.
     apply honest_put; auto. cbn [hazard] in Hz.
-    destruct c as [x|e|]; auto; [|discriminate].
+    destruct c as [x|e|]; auto.
     apply negb_false_iff in Hz. apply xcont_eqb_eq in Hz. auto.
   - inversion Hs; subst. split; [|discriminate]. destruct HI as [HI0 Hh].
     unfold Inv, with_dk. cbn [bs bs_prm trf_prm tri_prm trf tri dk]. split; auto.
@@ -334,16 +334,7 @@ Proof.
 Qed.
 
 (* ---- no damaged file -------------------------------------------------------------- *)
-Definition clean (s : st) : Prop := forall di k c, In (di, k, c) (dk s) -> exists x, c = FGood x.
-
-Lemma clean_put : forall (d : disk fkey xcont) di k x,
-  (forall di k c, In (di, k, c) d -> exists x, c = FGood x) ->
-  forall di' k' c', In (di', k', c') (put_file fkey_eqb di k (FGood x) d) -> exists x', c' = FGood x'.
-Proof.
-  intros d di k x H di' k' c' [Hin|Hin].
-  - inversion Hin; subst. eauto.
-  - apply filter_In in Hin. destruct Hin. eauto.
-Qed.
+Definition clean (s : st) : Prop := forall di k c, In (di, k, c) (dk s) -> forall pe, c <> FBad pe.
 
 Lemma step_dk : forall s o s' r, step s o = (s', r) ->
   forall di k c, In (di, k, c) (dk s') ->
@@ -385,9 +376,9 @@ Qed.
 Lemma step_clean : forall s o s' r, clean s -> damage o = false -> hazard s o = false ->
   step s o = (s', r) -> clean s'.
 Proof.
-  intros s o s' r Hc Hd Hz Hs di k c Hin.
-  destruct (step_dk _ _ _ _ Hs _ _ _ Hin) as [H|[H|(d0 & k0 & ->)]]; eauto.
-  cbn [damage hazard] in *. destruct c; eauto; discriminate.
+  intros s o s' r Hc Hd Hz Hs di k c Hin pe.
+  destruct (step_dk _ _ _ _ Hs _ _ _ Hin) as [H|[[x ->]|(d0 & k0 & ->)]]; [eauto|discriminate|].
+  cbn [damage] in Hd. destruct c; try discriminate.
 Qed.
 
 (* ---- the theorems -------------------------------------------------------------------- *)
@@ -404,7 +395,7 @@ Proof.
   apply andb_true_iff. split; [|apply IH; auto].
   destruct (is_call o) eqn:Eo; [|reflexivity].
   destruct (Hr eq_refl) as [Hok|(e & di & k & pe & _ & Hin)]; [exact Hok|].
-  destruct (Hc _ _ _ Hin) as [b Hb]. discriminate.
+  exfalso. exact (Hc _ _ _ Hin pe eq_refl).
 Qed.
 
 Theorem history_independent : forall ops,
@@ -433,11 +424,10 @@ Qed.
 Theorem fault_safe : forall ops, no_hazard init ops = true -> all_safe init ops = true.
 Proof. intros. apply fault_safe_from; auto. apply Inv_init. Qed.
 
-(* ---- wrong-shape file: the recorded finding F8 --------------------------------------- *)
+(* ---- wrong-shape file (F8, fixed in 7ce4ac5): regenerated and re-saved ------------- *)
 Definition ws_call : op := Call 10 0 0 true 0 false (BPath 1).
-Definition ws_hist : list op := [Seed 1 (10, 0) FShape; ws_call; Remove 1 (10, 0)].
-
-(* the wrong-shape basis stays in memory: after the file is removed the same
-   call still raises, although a fresh process would succeed *)
-Theorem wrong_shape_sticks : res_code (last_result ws_hist ws_call) = 1 /\ res_code (fresh ws_call) = 0.
+Definition ws_hist : list op := [Seed 1 (10, 0) FShape].
+Example wrong_shape_regenerated :
+  out_eqv (last_result ws_hist ws_call) (fresh ws_call) = true /\
+  out_eqv (last_result (ws_hist ++ [ws_call; Remove 1 (10, 0)]) ws_call) (fresh ws_call) = true.
 Proof. split; vm_compute; reflexivity. Qed.
